@@ -51,6 +51,8 @@ def gen(rng, tier):
         for _ in range(10):
             m = contents(rng, rng.randrange(1, 100))
             cases.append(Case("tohex %d %s" % (up, hexs(m)), "tohex rand up=%d" % up, True, spec="spec.tohex %d %s" % (up, hexs(m))))
+    # every API family once during static initialisation of the driver (before the library's own dynamic initialisers have run)
+    cases.append(Case("staticinit", "static-initialisation battery", True, spec="staticinit"))
     return cases
 
 def key(case, impl, model):
